@@ -4,6 +4,9 @@ package selftest
 import (
 	"github.com/hashicorp/hcl/v2"
 	"github.com/hashicorp/hcl/v2/hclsyntax"
+	"github.com/zclconf/go-cty/cty"
+	"github.com/zclconf/go-cty/cty/function"
+	"github.com/zclconf/go-cty/cty/function/stdlib"
 
 	"verif/engine/vf"
 )
@@ -49,4 +52,58 @@ func H_Scan() {
 	last := toks[len(toks)-1]
 	vf.Assert(last.Type == hclsyntax.TokenEOF, "eof-last")
 	vf.Reach("end")
+}
+
+// H_FuncMarks: concrete: marks flow through a cty function call.
+func H_FuncMarks() {
+	expr, _ := hclsyntax.ParseExpression([]byte("upper(s)"), "x.hcl", hcl.InitialPos)
+	ctx := &hcl.EvalContext{
+		Variables: map[string]cty.Value{"s": cty.StringVal("ab").Mark("m")},
+		Functions: map[string]function.Function{"upper": stdlib.UpperFunc},
+	}
+	v, diags := expr.Value(ctx)
+	vf.Observe("errs", diags.HasErrors())
+	vf.Observe("marked", v.ContainsMarked())
+	u, _ := v.UnmarkDeep()
+	vf.Observe("val", u.AsString())
+	vf.Reach("end")
+}
+
+func H_Dbg() {
+	v := cty.StringVal("ab").Mark("m")
+	vf.Observe("ismarked", v.IsMarked())
+	u, marks := v.UnmarkDeep()
+	vf.Observe("nmarks", len(marks))
+	vf.Observe("u-marked", u.IsMarked())
+	w := u.WithMarks(marks)
+	vf.Observe("w-marked", w.IsMarked())
+	r, err := stdlib.Upper(v)
+	vf.Observe("err", err != nil)
+	vf.Observe("r-marked", r.IsMarked())
+	r2, err := stdlib.UpperFunc.Call([]cty.Value{v})
+	vf.Observe("r2-marked", r2.IsMarked())
+}
+
+func named() (ret int) {
+	defer func() { ret = ret + 100 }()
+	if ret == 0 {
+		return 5
+	}
+	return 7
+}
+
+func H_Dbg2() {
+	v := cty.StringVal("ab").Mark("m")
+	r := v.Refine().NotNull().NewValue()
+	vf.Observe("refined-marked", r.IsMarked())
+	vf.Observe("named", named())
+	b := v.Refine()
+	x := b.NewValue()
+	vf.Observe("x-marked", x.IsMarked())
+}
+
+func H_Dbg3() {
+	v := cty.StringVal("ab").Mark("m")
+	r2, _ := stdlib.UpperFunc.Call([]cty.Value{v})
+	vf.Observe("r2-marked", r2.IsMarked())
 }
